@@ -122,15 +122,46 @@ Lemma rt_scan_d_repaired_example :
   scan_num rt_cfg spec_d (print_num spec_d (VInt (-5))) = Some (VInt (-5), 2%nat).
 Proof. vm_compute. reflexivity. Qed.
 
+Definition spec_p08d : nspec := {| n_conv := 100; n_long := false; n_plus := true; n_space := false;
+                                   n_zero := true; n_alt := false; n_width := 8; n_prec := None |}.
+
 Definition ex_items_f : list pitem :=
   [PShow (VFloat 4728057454355442549); PLit [44; 32]; PShow (VStr [97; 34]); PLit [59];
-   PNum spec_li (VInt (-7)); PLit [32]; PNum (spec_f true) (VFloat 4591870180066957722)].
+   PNum spec_li (VInt (-7)); PLit [32]; PNum (spec_f true) (VFloat 4591870180066957722); PLit [47];
+   PNum spec_p08d (VInt (-2147483648))].
 Definition ex_sitems_f : list sitem :=
-  [SLook TFloat; SLit [44; 32]; SLook TStr; SLit [59]; SNum spec_li; SLit [32]; SNum (spec_f true)].
+  [SLook TFloat; SLit [44; 32]; SLook TStr; SLit [59]; SNum spec_li; SLit [32]; SNum (spec_f true); SLit [47];
+   SNum spec_d].
+
+Ltac side :=
+  first [ reflexivity | exact I
+        | (right; split; reflexivity) | (left; reflexivity)
+        | (intros; vm_compute; reflexivity)
+        | (vm_compute; discriminate)
+        | (unfold showable, nul_free; repeat constructor; discriminate)
+        | (unfold in_range, two63, two31; cbn; lia)
+        | (vm_compute; repeat split; first [reflexivity | discriminate | (intros; discriminate)]) ].
 
 Example ex_wf_seq : wf_seq rt_cfg ex_items_f ex_sitems_f ex_rest.
 Proof.
-  vm_compute. repeat split; try (intros; discriminate); try lia; repeat constructor; try discriminate.
+  cbn [wf_seq ex_items_f ex_sitems_f ty_of].
+  repeat match goal with |- _ /\ _ => split end; side.
+Qed.
+
+Example ex_wf_seq_run :
+  scan_str rt_cfg (print_items rt_cfg ex_items_f ++ ex_rest) 0 ex_sitems_f []
+  = SOk [VFloat 4728057454355442563; VStr [97; 34]; VInt (-7); VFloat 4591870180066957722; VInt (-2147483648)] 47.
+Proof. vm_compute. reflexivity. Qed.
+
+(* Int through a numeric specification (signed decimal directives with flags and width) *)
+Lemma rt_int_spec_roundtrip : forall sp ssp z rest,
+  conv_signed (n_conv sp) = true ->
+  (n_conv ssp = 100 \/ (n_conv ssp = 105 /\ n_zero sp = false)) ->
+  in_range (n_long sp) z -> in_range (n_long ssp) z -> stops_int rest ->
+  scan_num rt_cfg ssp (print_num sp (VInt z) ++ rest) = Some (VInt z, length (print_num sp (VInt z))).
+Proof.
+  intros sp ssp z rest H1 H2 H3 H4 H5. apply int_dec_roundtrip; try assumption.
+  intros _. vm_compute. reflexivity.
 Qed.
 
 Example ex_finite : finite 4728057454355442549.
